@@ -232,6 +232,25 @@ def decide(prop, tier, seed, jobs, t0):
             if key in seen_v:
                 continue
             seen_v.add(key)
+            # the model may depend on an abstraction (arbitrary table / opaque function): search the
+            # contract's candidate inputs for a real failing one
+            if not res.get("note", "").startswith("loop/call-site"):
+                so = run_native(["-m", "pyvc.replay_native", "--search", path], timeout=300)
+                try:
+                    sres = json.loads(so.stdout.strip().splitlines()[-1])
+                except Exception:
+                    sres = {}
+                if so.returncode == 1 and sres.get("found_input") is not None:
+                    doc["inputs"] = sres["found_input"]
+                    doc["native"] = sres
+                    doc["note"] = "input found by searching the contract's candidate generator after the solver model (kept as solver_model) did not replay"
+                    doc["solver_model"] = o["model"]
+                    with open(os.path.join(VERIF, path), "w") as fh:
+                        json.dump(doc, fh, indent=1, sort_keys=True, default=str)
+                    lines.append("VIOLATION property=%s replay=%s obligation=%s input=%s observed=%s" % (
+                        prop, path, o["id"], json.dumps(sres["found_input"])[:400], (sres.get("observed") or "")[:120]))
+                    nviol += 1
+                    continue
             lines.append("VIOLATION property=%s replay=%s obligation=%s solver-model-did-not-replay no-failing-input-found" % (
                 prop, path, o["id"]))
             nviol += 1
